@@ -48,7 +48,44 @@ RETS = gen.RET_POOL + [[1, [2, {"$t": [3]}]], {"a": [None]}, 0.0, "0", [[]], {"$
 
 
 @st.composite
+def queued_result_case(draw, tier):
+    """An event whose own result is None (or comes from exactly one callback returning None / a falsy value) queues an
+    event whose callbacks return values: the caller must still get the FIRST event's result."""
+    is_async = draw(st.booleans())
+    first_ret = draw(st.sampled_from(["absent", "absent", None, 0, "", []]))
+    grp = draw(st.sampled_from(["after", "enter", "exit", "on", "before"]))
+    cbs = []
+
+    def cb(name, group, scope, ret=None, sends=None, attach="conv"):
+        cbs.append({"name": name, "group": group, "scope": scope, "attach": attach, "prov": draw(st.sampled_from(["machine", "model"])), "async": is_async,
+                    "yields": draw(st.integers(0, 1)) if is_async else 0, "ret": ret, "sends": sends or {}})
+
+    sender_name = {"after": "after_e1", "enter": "on_enter_s1", "exit": "on_exit_s0", "on": "on_e1", "before": "before_e1"}[grp]
+    sender_scope = {"after": ["event", "e1"], "enter": ["state", 1], "exit": ["state", 0], "on": ["event", "e1"], "before": ["event", "e1"]}[grp]
+    sender_ret = first_ret if grp in ("on", "before") and first_ret != "absent" else None
+    if grp in ("on", "before") and first_ret == "absent":
+        first_ret = None  # the sending callback itself is the single contributor and returns None
+        sender_ret = None
+    cb(sender_name, grp, sender_scope, ret=sender_ret, sends={"0": [["e2", [], {"n": 1}]], "1": [["e2", [], {"n": 2}]]})
+    if first_ret != "absent" and grp not in ("on", "before"):
+        cb("t0_on0", "on", ["trans", [0]], ret=first_ret, attach="name")
+    for j in range(draw(st.integers(1, 3))):
+        cb(f"t1_{'on' if j % 2 else 'before'}{j}", "on" if j % 2 else "before", ["trans", [1]], ret=draw(st.sampled_from(["v", 7, [1], {"k": 1}, "finished"])), attach="name")
+    cb("after_transition", "after", ["generic"], ret="decoy")
+    spec = {"states": [{"id": "s0", "initial": True, "final": False}, {"id": "s1", "initial": False, "final": False}],
+            "trans": [{"src": 0, "dst": 1, "events": ["e1"], "internal": False, "cond": [], "unless": []},
+                      {"src": 1, "dst": 0, "events": ["e2"], "internal": False, "cond": [], "unless": []}],
+            "cbs": cbs, "guards": [], "events": ["e1", "e2"]}
+    cfg = {"rtc": True, "allow": draw(st.booleans()), "driver": draw(st.sampled_from(["sync", "loop"])), "activate": True}
+    hist = [{"val": {}, "ev": "e1", "args": [], "kw": {}, "style": draw(st.sampled_from(["send", "method"]))},
+            {"val": {}, "ev": "e1", "args": [], "kw": {"n": 9}, "style": "send"}]
+    return {"spec": spec, "cfg": cfg, "history": hist}
+
+
+@st.composite
 def cases(draw, tier):
+    if draw(st.integers(0, 9)) < 2:
+        return draw(queued_result_case(tier))
     provs = draw(st.sampled_from([("machine",), ("machine", "model"), ("machine", "model", "l0", "l1")]))
     async_mode = draw(st.sampled_from(["none", "none", "all", "mixed"]))
     spec = draw(gen.machine_spec(max_states=3, max_extra=4, providers=provs, async_mode=async_mode, sends=draw(st.sampled_from([False, True, True])),
